@@ -59,6 +59,34 @@ def run(rep):
     tree, nf = _import()
     from nasim.scenarios import load_scenario
     doc = rep["doc"]
+    # rebuild shared mappings (anchor / alias markers written by the concretiser)
+    shared = {}
+
+    def find(x):
+        if isinstance(x, dict):
+            if "__anchor__" in x:
+                shared[x.pop("__anchor__")] = x
+            for v in x.values():
+                find(v)
+        elif isinstance(x, list):
+            for v in x:
+                find(v)
+
+    def link(x):
+        if isinstance(x, dict):
+            for k, v in list(x.items()):
+                if isinstance(v, dict) and "__alias__" in v:
+                    x[k] = shared[v["__alias__"]]
+                else:
+                    link(v)
+        elif isinstance(x, list):
+            for i, v in enumerate(x):
+                if isinstance(v, dict) and "__alias__" in v:
+                    x[i] = shared[v["__alias__"]]
+                else:
+                    link(v)
+    find(doc)
+    link(doc)
     with tempfile.NamedTemporaryFile("w", suffix=".yaml", delete=False) as f:
         yaml.safe_dump(doc, f, sort_keys=False)
         path = f.name
